@@ -189,6 +189,7 @@ func (r *Report) Finish() int {
 	if len(r.samples) == 0 {
 		cov["samples"] = []any{"(none)"}
 	}
+	r.Assumptions = append(r.Assumptions, "trusted base: Go runtime and standard library, kernel path resolution, tmpfs; bounds and alphabets as stated in coverage.rule")
 	ev := map[string]any{
 		"property_id": r.ID, "tier": r.Tier, "seed": r.Seed, "level": r.Level,
 		"coverage": cov, "assumptions": r.Assumptions, "wall_s": wall, "violations": nviol,
